@@ -14,6 +14,12 @@ Definition vtab (n : nat) (f : nat -> C) : vect := map f (seq 0 n).
 Definition mtab (r c : nat) (f : nat -> nat -> C) : matr := map (fun i => vtab c (f i)) (seq 0 r).
 Definition isum (n : nat) (f : nat -> C) : C := csum (map f (seq 0 n)).
 
+Arguments vget : simpl never.
+Arguments mget : simpl never.
+Arguments vtab : simpl never.
+Arguments mtab : simpl never.
+Arguments isum : simpl never.
+
 (* well-shaped r x c matrix *)
 Definition wfm (r c : nat) (M : matr) : Prop := length M = r /\ Forall (fun row => length row = c) M.
 
@@ -234,7 +240,7 @@ Lemma msum_rows_get c M j : Forall (fun row => length row = c) M -> j < c ->
   vget (msum_rows c M) j = csum (map (fun row => vget row j) M).
 Proof.
   intros F Hj. unfold msum_rows.
-  assert (G : forall acc, length acc = c -> length (fold_left vadd M acc) = c /            vget (fold_left vadd M acc) j = (vget acc j + csum (map (fun row => vget row j) M))%C).
+  assert (G : forall acc, length acc = c -> length (fold_left vadd M acc) = c /\ vget (fold_left vadd M acc) j = (vget acc j + csum (map (fun row => vget row j) M))%C).
   { induction F as [|row M' Hr F IH]; intros acc La; cbn.
     - split; [exact La | ring].
     - assert (Lv : length (vadd acc row) = c) by (unfold vadd; rewrite length_vmap2; lia).
